@@ -3,17 +3,17 @@
     The model returns, for a rejected call, the state after whatever the code had already assigned when it
     raised; the theorems say that state is the one before the call (Leibniz equality):
      * add_arm, remove_arm, warm_start: for EVERY policy combination, every argument;
-     * fit / partial_fit: for context-free bandits, TreeBandit and Radius/KNearest/LSHNearest - including the
+     * fit / partial_fit: for context-free bandits, TreeBandit, Radius/KNearest/LSHNearest and Clusters over a context-free policy - including the
        shape errors from inside training (context width, fewer rows than clusters are rejected before anything
        is assigned in the repaired code: fixes D9, Clusters history, TreeBandit width);
      * predict / predict_expectations before the first fit.
      * linear policies: a partial_fit with another context width is rejected from inside training by the first arm that has
        rows and leaves the policy and the bandit Leibniz-equal (C17Lin);
     ..._partial: linear policies and Clusters over linear policies can raise from np.linalg.inv inside a per-arm
-    task after earlier arms were updated (l2_lambda = 0 only); that branch is modelled, not excluded, and is
-    outside the theorem. Ill-typed arguments are outside the model and covered by the 19-class relation. *)
+    task after earlier arms were updated - for l2_lambda = 0 only: for l2_lambda > 0 the matrix is never singular (C02,
+    ridge_fits_never_singular); the branch is modelled, not excluded, and is outside this theorem. Ill-typed arguments are outside the model and covered by the 19-class relation. *)
 From Coq Require Import List ZArith Bool Arith QArith Qcanon Permutation.
-From MW Require Import Num Assoc AssocFacts Rng Par CF CFInv CFClean CFForget CFSpec Matrix Lin Warm WarmInv Nbr NbrFacts NbrIndep LshFacts Clu Tree CellFacts Mab FacadeCF FacadeArms MoreFacts NumLaws CFAlg Sim Extra QcInst OrderFacts ExpIrrel LinInv FacadeLin LpInv NbrInv CluTreeInv FacadeAll ToyFacts C09All C10All LinForget LinSim MatrixFacts GaussJordan LinSpec NbrIndepGen CluIndep C17Lin WarmIdem.
+From MW Require Import Num Assoc AssocFacts Rng Par CF CFInv CFClean CFForget CFSpec Matrix Lin Warm WarmInv Nbr NbrFacts NbrIndep LshFacts Clu Tree CellFacts Mab FacadeCF FacadeArms MoreFacts NumLaws CFAlg Sim Extra QcInst OrderFacts ExpIrrel LinInv FacadeLin LpInv NbrInv CluTreeInv FacadeAll ToyFacts C09All C10All LinForget LinSim MatrixFacts GaussJordan LinSpec NbrIndepGen CluIndep C17Lin WarmIdem C14More LshScale TreeLeaf Rename PopSpec CopyFacts StatFacts CluBatch LinWarm.
 Import ListNotations.
 
 Theorem C17_rejected_arm_or_warm_start_call_changes_nothing :
